@@ -121,6 +121,25 @@ Proof.
   vm_compute. repeat split; discriminate.
 Qed.
 
+(* K9-C02.  Upgrade / install ADOPT a resource that exists, is owned by the release and is in no manifest of
+   the deployed revision by appending the TARGET entry itself to the "original" list (upgrade.go: current.Append(r)).
+   For a custom kind the two-way patch of (target, target) is empty: the live object stays as it is, whatever the
+   new manifest says.  (Replayed on the real actions: corpus of harness/cmd/hx/c02_objact.go; a built-in kind in
+   the same situation is corrected: s3 (Some t) t (Some l) carries every path of t, Merge3Proofs.s3_specified.) *)
+Theorem j2_adopted_noop_refuted :
+  exists (tm lm : list (string * tree)) (p : list string) (v : tree),
+    wf_tree (TM tm) = true /\ wf_tree (TM lm) = true /\
+    mget p (TM tm) = Some v /\ nonmap v = true /\
+    mget p (TM lm) <> Some v /\
+    j2 (TM tm) (TM tm) (TM lm) = TM lm /\
+    mget p (j2 (TM tm) (TM tm) (TM lm)) <> Some v.
+Proof.
+  exists [("metadata", TM []); ("spec", TM [("color", js "db"); ("size", TS "2")])],
+         [("metadata", TM []); ("spec", TM [("color", js "web"); ("size", TS "1")])],
+         ["spec"; "size"], (TS "2").
+  vm_compute. repeat split; try reflexivity; discriminate.
+Qed.
+
 (* ---- kube.Client.update on whole objects ---- *)
 Definition r_dep (ver : string) (o : tree) : res2 := mkRes2 "default" "apps" "Deployment" "web" ver false o.
 Definition r_wid (n : string) (o : tree) : res2 := mkRes2 "default" "unit-test.test.com" "Widget" n "v1" true o.
